@@ -406,13 +406,15 @@ func c11Scenario(id int, kind string, delay int64, param int, dir string) (c c11
 	case "deadline": // nothing arrives: ErrTimeout, not before the deadline
 		d := time.Duration(param) * time.Millisecond
 		c11Sleep(delay)
-		sst.SetReadDeadline(time.Now().Add(d))
-		t := time.Now()
+		dlAbs := time.Now().Add(d)
+		sst.SetReadDeadline(dlAbs)
 		ret := c11Await(c11Call(read), c11Bound+d)
-		c.record(ret, t.Add(d), 1)
+		c.record(ret, dlAbs, 1)
 		c.MinUs = d.Microseconds()
-		if ret != nil && ret.err == ErrTimeout && ret.d < d-2*time.Millisecond {
-			c.fail("deadline: ErrTimeout returned %v before the deadline", d-ret.d)
+		// compare ABSOLUTE times: the goroutine that makes the call may start late on a loaded machine, the
+		// call is then shorter than d although it returns at the deadline
+		if ret != nil && ret.err == ErrTimeout && ret.end.Before(dlAbs.Add(-500*time.Microsecond)) {
+			c.fail("deadline: ErrTimeout returned %v before the deadline", dlAbs.Sub(ret.end))
 		}
 	case "deadline-twice": // a short deadline that expires, then a long one: the second call must honour the NEW deadline
 		d1 := 30 * time.Millisecond
@@ -423,13 +425,13 @@ func c11Scenario(id int, kind string, delay int64, param int, dir string) (c c11
 		}
 		c11Sleep(delay)
 		d := time.Duration(param) * time.Millisecond
-		sst.SetReadDeadline(time.Now().Add(d))
-		t := time.Now()
+		dlAbs := time.Now().Add(d)
+		sst.SetReadDeadline(dlAbs)
 		ret := c11Await(c11Call(read), c11Bound+d)
-		c.record(ret, t.Add(d), 1)
+		c.record(ret, dlAbs, 1)
 		c.MinUs = d.Microseconds()
-		if ret != nil && ret.err == ErrTimeout && ret.d < d-2*time.Millisecond {
-			c.fail("deadline-twice: ErrTimeout returned %v before the (new) deadline", d-ret.d)
+		if ret != nil && ret.err == ErrTimeout && ret.end.Before(dlAbs.Add(-500*time.Microsecond)) {
+			c.fail("deadline-twice: ErrTimeout returned %v before the (new) deadline", dlAbs.Sub(ret.end))
 		}
 	case "deadline-then-none": // data beats the deadline; then the deadline is cleared: the old timer must not fire into the next call
 		d := time.Duration(param) * time.Millisecond
@@ -657,15 +659,17 @@ func c11FlushFull(id int, qcap int, withDeadlineMs int, dir string) (c c11Case) 
 		c.Skip = fmt.Sprintf("could not fill the queue (%d writes)", fills)
 		return
 	}
+	var wdlAbs time.Time
 	if withDeadlineMs > 0 {
-		cst.SetWriteDeadline(time.Now().Add(time.Duration(withDeadlineMs) * time.Millisecond))
+		wdlAbs = time.Now().Add(time.Duration(withDeadlineMs) * time.Millisecond)
+		cst.SetWriteDeadline(wdlAbs)
 	}
 	t := time.Now()
 	ret := c11Await(c11Call(func() (int, error) { return cst.Write([]byte{3, 4, 5}) }), c11Bound)
 	if withDeadlineMs > 0 {
 		c.record(ret, t, 1, 5)
-		if ret != nil && ret.err == ErrTimeout && ret.d < time.Duration(withDeadlineMs)*time.Millisecond-2*time.Millisecond {
-			c.fail("flush: write deadline reported %v early", time.Duration(withDeadlineMs)*time.Millisecond-ret.d)
+		if ret != nil && ret.err == ErrTimeout && ret.end.Before(wdlAbs.Add(-500*time.Microsecond)) {
+			c.fail("flush: write deadline reported %v early", wdlAbs.Sub(ret.end))
 		}
 	} else {
 		c.record(ret, t, 5)
@@ -1058,6 +1062,104 @@ func c11OnData(id int, kind string, deferred bool, end string, delay int64, dir 
 	return
 }
 
+// Scheduling hook compiled into Stream.Close by the plugin (overlay copy of the current stream.go): runs between
+// the load of callbackInProcess (== 0) and the call of close().  nil except in c11CloseVsCallbackStart.
+var vhookC11BeforeClose func(s *Stream)
+
+// Stream.Close has read callbackInProcess == 0; NOW data arrives, the callback goroutine starts and its OnData
+// parks in a read for more data than there is (no deadline); then close() goes on.  Both calls must return:
+// the Close, and the read inside OnData (with a closed class).
+func c11CloseVsCallbackStart(id int, delay int64, dir string) (c c11Case, wedged bool) {
+	c = c11Case{ID: id, Kind: "close-vs-callback-start", Delay: delay, Param: 8}
+	client, server, err := c11Pair(dir, nil, nil)
+	if err != nil {
+		c.Skip = err.Error()
+		return
+	}
+	defer func() {
+		vhookC11BeforeClose = nil
+		client.Close()
+		server.Close()
+	}()
+	cst, sst, err := c11Streams(client, server)
+	if err != nil {
+		c.Skip = "stream setup: " + err.Error()
+		return
+	}
+	cb := &c11DataCb{entered: make(chan struct{}), returned: make(chan c11Ret, 1), want: 8}
+	if err = sst.SetCallbacks(cb); err != nil {
+		c.Skip = "SetCallbacks: " + err.Error()
+		return
+	}
+	hookRan := make(chan string, 1)
+	vhookC11BeforeClose = func(s *Stream) {
+		if s != sst {
+			return
+		}
+		vhookC11BeforeClose = nil
+		if atomic.LoadUint32(&s.callbackInProcess) != 0 {
+			hookRan <- "callbackInProcess was already 1"
+			return
+		}
+		if _, werr := cst.Write([]byte("half")); werr != nil {
+			hookRan <- "write: " + werr.Error()
+			return
+		}
+		select {
+		case <-cb.entered:
+		case <-time.After(c11Bound):
+			hookRan <- "OnData was not called"
+			return
+		}
+		time.Sleep(20 * time.Millisecond) // let the read reach its select
+		c11Sleep(delay)
+		hookRan <- ""
+	}
+	t0 := time.Now()
+	closeCh := c11Call(func() (int, error) { return 0, sst.Close() })
+	select {
+	case msg := <-hookRan:
+		if msg != "" {
+			c.Skip = "hook: " + msg
+			return
+		}
+	case <-time.After(2 * c11Bound):
+		c.Skip = "the hook in Stream.Close did not run (instrumentation missing?)"
+		return
+	}
+	t := time.Now()
+	_ = t0
+	closeRet := c11Await(closeCh, 1500*time.Millisecond)
+	var readRet *c11Ret
+	select {
+	case r := <-cb.returned:
+		readRet = &r
+	case <-time.After(1500 * time.Millisecond):
+	}
+	if closeRet == nil || readRet == nil {
+		c.Class = 8
+		c.fail("close-vs-callback-start: Stream.Close and the read inside OnData block each other (Close returned: %v, read returned: %v): close() waits for the callback goroutine before it closes closeNotifyCh", closeRet != nil, readRet != nil)
+		// only the death of the session ends it
+		server.Close()
+		select {
+		case <-cb.returned:
+		case <-time.After(c11Bound):
+			c.fail("close-vs-callback-start: the read inside OnData was not released even by Session.Close")
+		}
+		c11Await(closeCh, c11Bound)
+	} else {
+		c.record(readRet, t, 2, 3)
+		if closeRet.err != nil {
+			c.fail("close-vs-callback-start: Stream.Close failed with class %d", c11Class(closeRet.err))
+		}
+	}
+	if !c11DispatcherAlive() {
+		c.fail("close-vs-callback-start: the process-wide dispatcher no longer runs posted lambdas")
+		wedged = true
+	}
+	return
+}
+
 func TestVerif_C11(t *testing.T) {
 	seed := uint64(venvInt("VERIF_SEED", 1))
 	reps := venvInt("VERIF_N", 2) // repetitions of every (kind, delay) pair
@@ -1179,6 +1281,15 @@ func TestVerif_C11(t *testing.T) {
 		}
 	}
 	ods = append(ods, od{true, "only"}, od{true, "peer-close"})
+	for k := 0; k < 3; k++ {
+		d := delays[r.intn(len(delays))]
+		cc, wedged := c11CloseVsCallbackStart(id, d, dir)
+		emit(cc)
+		id++
+		if wedged {
+			return
+		}
+	}
 	for _, o2 := range ods {
 		kind := "ondata-" + o2.end
 		if o2.deferred {
